@@ -35,6 +35,8 @@ var c11Tests = []struct{ pkg, file, test string }{
 
 const absMarker = "@ABS@" // replaced by the per-run absolute directory
 
+var deepTail = strings.Repeat("/a-rather-deep-directory-level", 8)
+
 func rewriteName(s string) string {
 	b := []byte{}
 	for _, r := range s {
@@ -56,7 +58,13 @@ func genC11Cfg(t *rapid.T) Cfg {
 		return Cfg{Default: true}
 	}
 	c := Cfg{}
-	switch rapid.IntRange(0, 5).Draw(t, "dir") {
+	switch rapid.IntRange(0, 8).Draw(t, "dir") {
+	case 6: // explicitly empty (Dir(os.Getenv("GOLDEN_DIR")) with the variable unset): relative, so the test file's own directory
+		c.Dir = strp("")
+	case 7:
+		c.Dir = strp(".")
+	case 8: // a deep absolute directory: the whole path is longer than 259 bytes (no file NAME is near the 255 byte limit)
+		c.Dir = strp(absMarker + deepTail)
 	case 0:
 		// unset
 	case 1:
@@ -85,7 +93,7 @@ func genC11StepsAt(t *rapid.T, depth int, top bool) []Step {
 	usedSubs := map[string]bool{}
 	for i := 0; i < n; i++ {
 		if depth > 0 && rapid.IntRange(0, 3).Draw(t, "sub") == 0 {
-			name := rapid.SampledFrom([]string{"sub", "with space", "100% done", "a/b", "dots.and.more", "ünï", "x", "%d"}).Draw(t, "subname")
+			name := rapid.SampledFrom([]string{"sub", "with space", "100% done", "a/b", "dots.and.more", "ünï", "x", "%d", "returns the paginated list of users when the caller is an administrator"}).Draw(t, "subname")
 			if usedSubs[name] {
 				continue
 			}
@@ -172,8 +180,8 @@ func expectedC11(c c11Case, absDir string) (files map[string][]string) {
 				if st.Cfg.Dir != nil {
 					dir = *st.Cfg.Dir
 				}
-				if dir == absMarker {
-					dir = absDir
+				if strings.HasPrefix(dir, absMarker) {
+					dir = absDir + dir[len(absMarker):]
 				}
 				if !filepath.IsAbs(dir) {
 					dir = filepath.Join(testDir, dir)
@@ -222,8 +230,8 @@ func substituteAbs(steps []Step, abs string) []Step {
 	out := make([]Step, len(steps))
 	for i, st := range steps {
 		out[i] = st
-		if st.Cfg.Dir != nil && *st.Cfg.Dir == absMarker {
-			out[i].Cfg.Dir = strp(abs)
+		if st.Cfg.Dir != nil && strings.HasPrefix(*st.Cfg.Dir, absMarker) {
+			out[i].Cfg.Dir = strp(abs + (*st.Cfg.Dir)[len(absMarker):])
 		}
 		out[i].Steps = substituteAbs(st.Steps, abs)
 	}
@@ -370,6 +378,10 @@ func classifyC11(c c11Case) ([]string, bool) {
 			}
 			if st.Cfg.Dir != nil {
 				switch {
+				case *st.Cfg.Dir == "":
+					cls = append(cls, "explicitly_empty_dir")
+				case strings.HasPrefix(*st.Cfg.Dir, absMarker) && len(*st.Cfg.Dir) > len(absMarker):
+					cls = append(cls, "absolute_dir", "path_longer_than_259_bytes")
 				case *st.Cfg.Dir == absMarker:
 					cls = append(cls, "absolute_dir")
 				case strings.HasPrefix(*st.Cfg.Dir, ".."):
